@@ -181,7 +181,7 @@ class Inliner(object):
         nested = g.parent is not None
         if not (private or nested):
             return None
-        if g.vararg or g.kwarg:
+        if g.vararg:
             return None
         decos = [norm(d) for d in g.node.decorator_list]
         if any(d not in ('contextmanager', 'contextlib.contextmanager', 'staticmethod') for d in decos):
@@ -202,10 +202,21 @@ class Inliner(object):
             raise _NoInline('too many arguments')
         for p, a in zip(params, call.args):
             mapping[p] = a
+        extra = []
         for k in call.keywords:
-            if k.arg not in g.params or k.arg in mapping:
+            if k.arg in mapping:
                 raise _NoInline('keyword %s' % k.arg)
+            if k.arg not in g.params:
+                if not g.kwarg:
+                    raise _NoInline('keyword %s' % k.arg)
+                extra.append(k)
+                continue
             mapping[k.arg] = k.value
+        if g.kwarg:
+            # **kwargs of the helper = the extra keywords of this call, as a dict(...) expression
+            d = ast.Call(func=ast.Name(id='dict', ctx=ast.Load()), args=[],
+                         keywords=[ast.keyword(arg=k.arg, value=k.value) for k in extra])
+            mapping[g.kwarg] = ast.fix_missing_locations(ast.copy_location(d, call))
         for p in g.params:
             if p not in mapping:
                 d = g.defaults.get(p)
